@@ -203,7 +203,16 @@ class Calls(DataModels):
     def call_repo(self, I, key, func, args, kw, node):
         c = self.registry.get(key)
         if c is None:
-            raise Unsupported('no contract for callee %s:%s (line %s)' % (key[0], key[1], line_of(node)))
+            # a repository function without a contract (a helper a refactoring extracted): executed in place from its real
+            # body, like a callee declared `inline`; its loops have no invariants, so a loop in it is still unsupported
+            class _Auto:
+                relpath, qualname, loops, inline = key[0], key[1], {}, True
+            try:
+                extract.find(key[0], key[1])
+            except Exception:
+                raise Unsupported('no contract for callee %s:%s (line %s)' % (key[0], key[1], line_of(node)))
+            I.assumptions.add('callee without a contract executed in place from its real body: %s:%s' % key)
+            return self.inline_repo(I, _Auto, args, kw, node)
         if c.inline:
             return self.inline_repo(I, c, args, kw, node)
         return self.apply_contract(I, c, args, kw, node)
